@@ -96,6 +96,8 @@ def run_case(case, oracles=("conservation",), custom_share=0.35, force_special=F
     if cfg["flavour"] == "custom" and any(m[2] in ("generator", "iter") for m in cfg["motifs"]):
         res.count("oneshot_name_iterables")
     shapes = set()
+    if cfg.get("decoy"):
+        res.count("decoy_model_configured_first_cases")
     reuse = rng.random() < 0.6
     alg_rec = None
     live = None
